@@ -6,9 +6,9 @@
    PAIR reuses the invariant PInv, the contract op_ok and the step law of Proto/PairProofs
    (plus: an aio is pending as a send or as a receive, not both); BUS reuses BInv / op_ok /
    bus_step_inv of Proto/BusProofs -- its weighted equation needs no hypothesis at all. *)
-From Coq Require Import List Arith NArith Bool Lia.
+From Coq Require Import List Arith NArith Bool Lia Permutation.
 From NngV Require Import Proto.Common Proto.PairModel Proto.PairGuard Proto.BusModel
-  Ledger.Ledger Ledger.LedgerProofs Ledger.LawTac Ledger.Views.
+  Ledger.Ledger Ledger.LedgerProofs Ledger.LawTac Ledger.Views Ledger.LedgerThms.
 From NngV Require Proto.PairProofs Proto.PairGuardProofs Proto.BusProofs.
 Import ListNotations.
 
@@ -461,5 +461,171 @@ Example bus_ok_nonvacuous : forall fixed raw,
      PPipeClose 1%N; PSockClose].
 Proof. intros [|] [|]; vm_compute; intuition (try discriminate; try congruence). Qed.
 
+(* ================================================================================ *)
+(* Part 2: after the close sequence the protocol owns nothing but what its fini frees *)
+Section CloseGen.
+  Context {St : Type} (step : St -> pop -> St * list pout) (Inv : St -> Prop) (ok : St -> pop -> Prop).
+  Hypothesis Hinv : forall s o, Inv s -> ok s o -> Inv (fst (step s o)).
+
+  Lemma run_app a b s : run step s (a ++ b) = run step (run step s a) b.
+  Proof. revert s; induction a as [|o a IH]; intros s; cbn [app run]; auto. Qed.
+  Lemma ops_ok_app a b s :
+    ops_ok step ok s a -> ops_ok step ok (run step s a) b -> ops_ok step ok s (a ++ b).
+  Proof.
+    revert s; induction a as [|o a IH]; intros s Ha Hb; cbn [app run ops_ok] in *; [exact Hb|].
+    destruct Ha as [Ho Ha]. split; [exact Ho|]. apply IH; assumption.
+  Qed.
+
+  (* operations the contract allows in every state of the invariant and that leave a component alone *)
+  Lemma run_frame {B} (f : St -> B) ops :
+    (forall s o, In o ops -> Inv s -> ok s o /\ f (fst (step s o)) = f s) ->
+    forall s, Inv s -> ops_ok step ok s ops /\ Inv (run step s ops) /\ f (run step s ops) = f s.
+  Proof.
+    induction ops as [|o ops IH]; intros H s Hi; cbn [run ops_ok]; [split; [exact I|split; [exact Hi|reflexivity]]|].
+    destruct (H s o (or_introl eq_refl) Hi) as [Ho Hf].
+    destruct (IH (fun s o Hin => H s o (or_intror Hin)) (fst (step s o)) (Hinv s o Hi Ho)) as (A & B0 & C).
+    split; [split; [exact Ho|exact A]|]. split; [exact B0|]. rewrite C. exact Hf.
+  Qed.
+
+  (* the transport fails every send still in flight: one failing completion per pipe *)
+  Lemma run_fail {B} (f : St -> B) (sn : St -> list (pid * pmsg)) rv :
+    (forall s p, Inv s -> In p (map fst (sn s)) -> ok s (PSendDone p rv)) ->
+    (forall s p, sn (fst (step s (PSendDone p rv))) = filter (fun x => negb (N.eqb (fst x) p)) (sn s)) ->
+    (forall s p, f (fst (step s (PSendDone p rv))) = f s) ->
+    forall l s, NoDup l -> Inv s -> incl l (map fst (sn s)) ->
+      ops_ok step ok s (map (fun p => PSendDone p rv) l) /\
+      Inv (run step s (map (fun p => PSendDone p rv) l)) /\
+      f (run step s (map (fun p => PSendDone p rv) l)) = f s /\
+      (forall x, In x (sn (run step s (map (fun p => PSendDone p rv) l))) -> In x (sn s) /\ ~ In (fst x) l).
+  Proof.
+    intros H1 H2 H3. induction l as [|p l IH]; intros s Hn Hi Hl; cbn [map run ops_ok].
+    - split; [exact I|]. split; [exact Hi|]. split; [reflexivity|]. intros x Hx. split; [exact Hx|intros []].
+    - inversion Hn as [|? ? Hp Hn']; subst.
+      assert (Ho : ok s (PSendDone p rv)) by (apply H1; [exact Hi|apply Hl; left; reflexivity]).
+      assert (Hl' : incl l (map fst (sn (fst (step s (PSendDone p rv)))))).
+      { intros q Hq. rewrite H2. assert (Hq' : In q (map fst (sn s))) by (apply Hl; right; exact Hq).
+        apply in_map_iff in Hq'. destruct Hq' as [x [<- Hx]]. apply in_map. apply filter_In. split; [exact Hx|].
+        destruct (N.eqb_spec (fst x) p) as [E|E]; [exfalso; apply Hp; rewrite <- E; exact Hq|reflexivity]. }
+      destruct (IH (fst (step s (PSendDone p rv))) Hn' (Hinv s _ Hi Ho) Hl') as (A & B0 & C & D).
+      split; [split; [exact Ho|exact A]|]. split; [exact B0|]. split; [rewrite C; apply H3|].
+      intros x Hx. destruct (D x Hx) as [D1 D2]. rewrite H2 in D1. apply filter_In in D1. destruct D1 as [D1 D3].
+      split; [exact D1|]. intros [E|E]; [|exact (D2 E)]. subst p. rewrite N.eqb_refl in D3. discriminate.
+  Qed.
+  Lemma run_fail_all {B} (f : St -> B) (sn : St -> list (pid * pmsg)) rv :
+    (forall s p, Inv s -> In p (map fst (sn s)) -> ok s (PSendDone p rv)) ->
+    (forall s p, sn (fst (step s (PSendDone p rv))) = filter (fun x => negb (N.eqb (fst x) p)) (sn s)) ->
+    (forall s p, f (fst (step s (PSendDone p rv))) = f s) ->
+    forall s, NoDup (map fst (sn s)) -> Inv s ->
+      ops_ok step ok s (map (fun p => PSendDone p rv) (map fst (sn s))) /\
+      Inv (run step s (map (fun p => PSendDone p rv) (map fst (sn s)))) /\
+      f (run step s (map (fun p => PSendDone p rv) (map fst (sn s)))) = f s /\
+      sn (run step s (map (fun p => PSendDone p rv) (map fst (sn s)))) = [].
+  Proof.
+    intros H1 H2 H3 s Hn Hi.
+    destruct (run_fail f sn rv H1 H2 H3 (map fst (sn s)) s Hn Hi (incl_refl _)) as (A & B0 & C & D).
+    split; [exact A|]. split; [exact B0|]. split; [exact C|].
+    destruct (sn (run step s (map (fun p => PSendDone p rv) (map fst (sn s))))) as [|x r]; [reflexivity|].
+    exfalso. destruct (D x (or_introl eq_refl)) as [D1 D2]. apply D2. apply in_map. exact D1.
+  Qed.
+End CloseGen.
+
+(* ------------------------------ PAIR ------------------------------ *)
+(* the socket core's close sequence as pairX sees it: the peer pipe (s->p) gets its pipe_close /
+   pipe_stop (which frees the message parked in its aio_recv); every transport send still in
+   flight -- of the peer or of a pipe replaced earlier -- fails with NNG_ECLOSED; there are no
+   contexts; then pairX_sock_close *)
+Definition pair_close_script (s : pair) : list pop :=
+  map PPipeClose (opt_list (pr_p s))
+  ++ map (fun p => PSendDone p E_CLOSED) (map fst (pr_sending s))
+  ++ [PSockClose].
+
+Lemma pair_inv_step k fx fs s o : pair_inv s -> pair_ok s o -> pair_inv (fst (pair_step_g k fx fs s o)).
+Proof.
+  intros Hi Ho. destruct (pair_step_g k fx fs s o) as [s' outs] eqn:E.
+  exact (proj1 (pair_proto_law k fx fs s o s' outs Hi Ho E)).
+Qed.
+Lemma pair_fail_step k fx fs s p :
+  fst (pair_step_g k fx fs s (PSendDone p E_CLOSED)) =
+  mkPair (pr_p s) (pr_ttl s) (pr_wmq s) (pr_wcap s) (pr_waq s) (pr_rmq s) (pr_rcap s) (pr_raq s)
+         (pr_rd s) (pr_wr s) (set_snd (pr_sending s) p None) (pr_readable s) (pr_writable s).
+Proof.
+  cbn [pair_step_g]. change (E_CLOSED =? 0)%N with false. rewrite andb_false_r. cbn [andb pair_step].
+  change (negb false) with true. cbn iota. reflexivity.
+Qed.
+
+Theorem pair_close_drains : forall k fx fs s, pair_inv s ->
+  ops_ok (pair_step_g k fx fs) pair_ok s (pair_close_script s) /\
+  drained (VPair.view k) (run (pair_step_g k fx fs) s (pair_close_script s)).
+Proof.
+  intros k fx fs s Hi. set (step := pair_step_g k fx fs).
+  pose proof (pair_inv_step k fx fs) as Hinv. fold step in Hinv.
+  unfold pair_close_script.
+  (* 1: the peer's pipe_close *)
+  destruct (run_frame step pair_inv pair_ok Hinv pr_sending (map PPipeClose (opt_list (pr_p s)))) with (s := s)
+    as (A1 & J1 & F1); [|exact Hi|].
+  { intros s0 o Hin _. apply in_map_iff in Hin. destruct Hin as [p [<- _]]. split; [split; exact I|].
+    unfold step. cbn [pair_step_g pair_step]. destruct (pr_p s0) as [q|]; [destruct (q =? p)%N|]; reflexivity. }
+  assert (R1 : pr_rd (run step s (map PPipeClose (opt_list (pr_p s)))) = None).
+  { destruct (pr_p s) as [p|] eqn:EP; cbn [opt_list map run].
+    - unfold step. cbn [pair_step_g pair_step]. rewrite EP, N.eqb_refl. reflexivity.
+    - destruct (pr_rd s) eqn:R; [|reflexivity]. destruct Hi as [(_ & I2 & _) _].
+      destruct I2 as [X _]; [rewrite R; discriminate|]. congruence. }
+  set (s1 := run step s (map PPipeClose (opt_list (pr_p s)))) in *.
+  (* 2: the transport fails the sends in flight *)
+  destruct (run_fail_all step pair_inv pair_ok Hinv pr_rd pr_sending E_CLOSED) with (s := s1)
+    as (A2 & J2 & F2 & S2); [| | | |exact J1|].
+  { intros s0 p _ Hin. split; [split; [exact Hin|intros; discriminate]|exact I]. }
+  { intros s0 p. unfold step. rewrite pair_fail_step. reflexivity. }
+  { intros s0 p. unfold step. rewrite pair_fail_step. reflexivity. }
+  { destruct J1 as [(_ & _ & _ & _ & _ & _ & I7) _]. exact I7. }
+  rewrite F1 in A2, J2, F2, S2.
+  set (s2 := run step s1 (map (fun p => PSendDone p E_CLOSED) (map fst (pr_sending s)))) in *.
+  split.
+  - apply ops_ok_app; [exact A1|]. fold s1. apply ops_ok_app; [exact A2|]. fold s2.
+    cbn [ops_ok]. split; [split; exact I|exact I].
+  - rewrite !run_app. fold s1. fold s2. cbn [run]. unfold step. cbn [pair_step_g pair_step fst].
+    unfold drained. cbn [VPair.view v_tx v_att v_held v_fini]. simp_p.
+    split; [exact S2|]. split; [reflexivity|]. rewrite F2, R1. cbn [opt_list app]. apply perm_nil.
+Qed.
+
+(* ------------------------------ BUS ------------------------------ *)
+(* every pipe on s->pipes gets bus0_pipe_close (its send queue is flushed); every transport send
+   still in flight fails with NNG_ECLOSED; there are no contexts; then bus0_sock_close *)
+Definition bus_close_script (s : bus) : list pop :=
+  map PPipeClose (map bp_id (bs_pipes s))
+  ++ map (fun p => PSendDone p E_CLOSED) (map fst (bs_sending s))
+  ++ [PSockClose].
+
+Theorem bus_close_drains : forall fixed keep s, BusProofs.BInv s ->
+  ops_ok (bus_step fixed) BusProofs.op_ok s (bus_close_script s) /\
+  drained (VBus.view fixed keep) (run (bus_step fixed) s (bus_close_script s)).
+Proof.
+  intros fixed keep s Hi. set (step := bus_step fixed).
+  assert (Hinv : forall s o, BusProofs.BInv s -> BusProofs.op_ok s o -> BusProofs.BInv (fst (step s o))).
+  { intros s0 o Hi0 Ho. destruct (step s0 o) as [s' outs] eqn:E. exact (BusProofs.bus_step_inv fixed s0 o s' outs Hi0 Ho E). }
+  unfold bus_close_script.
+  destruct (run_frame step BusProofs.BInv BusProofs.op_ok Hinv bs_sending (map PPipeClose (map bp_id (bs_pipes s)))) with (s := s)
+    as (A1 & J1 & F1); [|exact Hi|].
+  { intros s0 o Hin _. apply in_map_iff in Hin. destruct Hin as [p [<- _]]. split; [exact I|reflexivity]. }
+  set (s1 := run step s (map PPipeClose (map bp_id (bs_pipes s)))) in *.
+  destruct (run_fail_all step BusProofs.BInv BusProofs.op_ok Hinv (fun _ : bus => tt) bs_sending E_CLOSED) with (s := s1)
+    as (A2 & J2 & _ & S2); [| | | |exact J1|].
+  { intros s0 p _ Hin. exact Hin. }
+  { intros s0 p. reflexivity. }
+  { intros s0 p. reflexivity. }
+  { destruct J1 as (_ & _ & I3 & _). exact I3. }
+  rewrite F1 in A2, J2, S2.
+  set (s2 := run step s1 (map (fun p => PSendDone p E_CLOSED) (map fst (bs_sending s)))) in *.
+  split.
+  - apply ops_ok_app; [exact A1|]. fold s1. apply ops_ok_app; [exact A2|]. fold s2.
+    cbn [ops_ok]. split; exact I.
+  - rewrite !run_app. fold s1. fold s2. cbn [run]. unfold step. cbn [bus_step fst].
+    unfold drained. cbn [VBus.view v_tx v_att v_held v_fini]. simp_b.
+    split; [exact S2|]. split; [reflexivity|]. apply Permutation_refl.
+Qed.
+
+
 Print Assumptions pair_proto_law.
 Print Assumptions bus_proto_law.
+Print Assumptions pair_close_drains.
+Print Assumptions bus_close_drains.
